@@ -100,9 +100,22 @@ class Quoter:
             return list(range(int(self.eval_expr(m.group(1), env))))
         if re.match(r'^\d+$', s):
             return int(s)
-        m = re.match(r'^(.+?)\s*-\s*(\d+)$', s, re.S)
-        if m and '.' in m.group(1) and '(' in m.group(1):
-            return int(self.eval_expr(m.group(1), env)) - int(m.group(2))
+        # integer arithmetic (u8 / usize values of the schema): `A op B` at top level, left-associative
+        ms = rs.mask(s)
+        depth = 0
+        for i in range(len(ms) - 1, 0, -1):
+            ch = ms[i]
+            if ch in rs.CLOSE:
+                depth += 1
+            elif ch in rs.OPEN:
+                depth -= 1
+            elif depth == 0 and ch in '+-*^%' and ms[i - 1] not in '+-*^%=<>|&.(' and i + 1 < len(ms) and ms[i + 1] not in '=>':
+                lhs, rhs = s[:i].strip(), s[i + 1:].strip()
+                if lhs and rhs and not lhs.endswith('..'):
+                    a, b = self.eval_expr(lhs, env), self.eval_expr(rhs, env)
+                    if isinstance(a, int) and isinstance(b, int) and not isinstance(a, bool):
+                        return {'+': a + b, '-': a - b, '*': a * b, '^': a ^ b, '%': a % b if b else 0}[ch]
+                    raise ExtractError('R-quote: arithmetic on non-integers in %r' % s[:80])
         parts = self.split_method_chain(s)
         if len(parts) > 1 or re.match(r'^&?\w+$', parts[0]):
             return self.eval_chain(parts, env, s)
@@ -149,6 +162,12 @@ class Quoter:
                 val = '"WORLD_DATA"'
             elif p == 'is_empty()':
                 val = len(val) == 0
+            elif isinstance(val, int) and re.match(r'^(saturating_sub|saturating_add|wrapping_add|wrapping_sub|min|max|pow)\s*\((.*)\)$', p, re.S):
+                mm = re.match(r'^(\w+)\s*\((.*)\)$', p, re.S)
+                arg = int(self.eval_expr(mm.group(2), env))
+                op = mm.group(1)
+                val = {'saturating_sub': max(val - arg, 0), 'saturating_add': val + arg, 'wrapping_add': val + arg, 'wrapping_sub': val - arg,
+                       'min': min(val, arg), 'max': max(val, arg), 'pow': val ** arg}[op]
             else:
                 m = re.match(r'^map\s*\(\s*\|\s*(\w+)\s*\|(.*)\)$', p, re.S)
                 if not m:
